@@ -47,15 +47,15 @@ type Result struct {
 	failFilter func(class string) bool
 	cur        string
 	curIdx     int
-	caseObs  []string
-	beats    int
-	hashes   map[uint64]struct{}
-	hashFile *os.File
-	out      *os.File
-	tier     string
-	deadline time.Time
-	shard    int
-	nshards  int
+	caseObs    []string
+	beats      int
+	hashes     map[uint64]struct{}
+	hashFile   *os.File
+	out        *os.File
+	tier       string
+	deadline   time.Time
+	shard      int
+	nshards    int
 }
 
 func (r *Result) Fail(class string, tags []string, cas, detail string) {
@@ -108,8 +108,8 @@ func (r *Result) Beat() {
 }
 
 func (r *Result) Outcome(class string) { r.Outcomes[class]++ }
-func (r *Result) Note(k string, n int)  { r.Notes[k] += n }
-func (r *Result) Trans(n int)           { r.Transitions += int64(n) }
+func (r *Result) Note(k string, n int) { r.Notes[k] += n }
+func (r *Result) Trans(n int)          { r.Transitions += int64(n) }
 func (r *Result) Sample(s string) {
 	if len(r.Samples) < 4 {
 		r.Samples = append(r.Samples, s)
